@@ -223,6 +223,114 @@ def _fn_values(d):
     return used
 
 
+def _similar(a, b):
+    """Names of a function before and after a renaming that keeps a recognisable stem
+    (`find` / `find_into`, `tree_trace_to_trace` / `into_router_trace` is NOT such a pair)."""
+    a, b = a.lower(), b.lower()
+    if a == b:
+        return True
+    short, long_ = (a, b) if len(a) <= len(b) else (b, a)
+    return len(short) >= 3 and (long_.startswith(short + "_") or long_.endswith("_" + short) or ("_" + short + "_") in long_)
+
+
+def undo_renames(d, known):
+    """A known function that is gone while a new one with a similar name sits in the same impl or module
+    is the same function under a new name: give it its old name back everywhere (definition, closures
+    defined in it, call sites, fn-item types), so that rules anchored on the name still find it."""
+    present = {f["path"] for f in d["fns"]}
+    gone = {}
+    for p in known:
+        if p not in present and "::" in p and "{" not in p.rsplit("::", 1)[1]:
+            gone.setdefault(p.rsplit("::", 1)[0], []).append(p.rsplit("::", 1)[1])
+    ren = {}
+    for f in d["fns"]:
+        p = f["path"]
+        if p in known or not f.get("local", True) or f["kind"] not in ("Fn", "AssocFn") or "::" not in p:
+            continue
+        scope, name = p.rsplit("::", 1)
+        cands = [o for o in gone.get(scope, ()) if _similar(o, name)]
+        if len(cands) == 1:
+            ren[p] = (scope + "::" + cands[0], cands[0])
+    # one old name can be claimed by one new function only
+    claimed = {}
+    for p, (q, _) in ren.items():
+        claimed.setdefault(q, []).append(p)
+    ren = {p: v for p, v in ren.items() if len(claimed[v[0]]) == 1}
+    if not ren:
+        return {}
+
+    def fix_path(p):
+        if p in ren:
+            return ren[p][0]
+        for old, (new, _) in ren.items():
+            if p.startswith(old + "::"):
+                return new + p[len(old):]
+        return p
+
+    def fix_callee(c):
+        if not isinstance(c, dict):
+            return
+        if c.get("path"):
+            q = fix_path(c["path"])
+            if q != c["path"]:
+                if c["path"] in ren:
+                    c["name"] = ren[c["path"]][1]
+                c["path"] = q
+        for k in ("res",):
+            if isinstance(c.get(k), dict):
+                fix_callee(c[k])
+        for k in ("closure",):
+            if isinstance(c.get(k), str):
+                c[k] = fix_path(c[k])
+    for f in d["fns"]:
+        if f["path"] in ren:
+            f["renamed_from"] = f["path"]
+            f["name"] = ren[f["path"]][1]
+        f["path"] = fix_path(f["path"])
+        for k in ("parent", "root"):
+            if isinstance(f.get(k), str):
+                f[k] = fix_path(f[k])
+        for b in f["blocks"]:
+            t = b["term"]
+            if t["k"] == "call" and "f" in t:
+                fix_callee(t["f"])
+            for st in b["st"]:
+                if st["k"] == "A":
+                    r = st["r"]
+                    for key in ("o", "a", "b"):
+                        o = r.get(key)
+                        if isinstance(o, dict) and isinstance(o.get("k"), dict) and isinstance(o["k"].get("fn"), dict):
+                            fix_callee(o["k"]["fn"])
+            if t["k"] == "call":
+                for o in t["args"]:
+                    if isinstance(o, dict) and isinstance(o.get("k"), dict) and isinstance(o["k"].get("fn"), dict):
+                        fix_callee(o["k"]["fn"])
+    for t in d["types"]:
+        if isinstance(t.get("def"), str):
+            t["def"] = fix_path(t["def"])
+    return {p: v[0] for p, v in ren.items()}
+
+
+def _on_cycle(d, cands):
+    """Those of `cands` (def paths) that lie on a cycle of the direct-call graph over all local bodies:
+    part of a recursion, hence structure and not a helper."""
+    graph = {}
+    for f in d["fns"]:
+        graph.setdefault(f["path"], set()).update(b["term"]["f"]["path"] for b in f["blocks"] if b["term"]["k"] == "call" and "f" in b["term"] and not b["cleanup"])
+    out = set()
+    for p in cands:
+        seen, stack = set(), list(graph.get(p, ()))
+        while stack:
+            q = stack.pop()
+            if q == p:
+                out.add(p)
+                break
+            if q not in seen:
+                seen.add(q)
+                stack.extend(graph.get(q, ()))
+    return out
+
+
 def apply(d):
     """Inline new helpers in the raw fact dictionary `d` (in place).  Returns a summary dict."""
     known = load_known()
@@ -230,6 +338,7 @@ def apply(d):
     if known is None:
         summary["note"] = "no known_fns.json: inlining disabled"
         return summary
+    summary["renamed_back"] = undo_renames(d, known)
     byp = {}
     for f in d["fns"]:
         byp.setdefault(f["path"], []).append(f)
@@ -261,6 +370,7 @@ def apply(d):
             if q not in seen:
                 seen.add(q)
                 stack.extend(graph.get(q, ()))
+    rec |= _on_cycle(d, set(new) - rec)
     inl = {p: f for p, f in new.items() if p not in rec}
     pristine = {p: copy.deepcopy(f) for p, f in inl.items()}
     left = {}
